@@ -1,0 +1,8 @@
+//go:build !verif
+
+package tcpassembly
+
+// verifYield marks a point outside every critical section where a
+// verification build may suspend the calling goroutine. It is a no-op
+// (and inlined away) without the "verif" build tag.
+func verifYield(string) {}
